@@ -234,7 +234,8 @@ def run_cli(desc, ctx):
     rng = random.Random("C06-cli-%s-%s" % (desc["seed"], desc["k"]))
     d = os.path.join(ctx.workdir, "cli")
     os.makedirs(d, exist_ok=True)
-    ts = sorted(rng.sample([0.0, 1.0, 2.0, 3.0, 5.0], 3))
+    # (one-decimal values that are not exact in single precision: text values are doubles, a value equal to the threshold is a tie)
+    ts = sorted(rng.sample([0.0, 1.0, 2.0, 3.0, 5.0] if desc["k"] % 2 == 0 else [0.1, 0.3, 0.7, 0.9, 1.1, 2.3], 3))
     grid = sorted(set(([ts[0] - 1] if rng.random() < 0.5 else []) + ts + [(ts[0] + ts[1]) / 2, (ts[1] + ts[2]) / 2] +
                       ([ts[2] + 1] if rng.random() < 0.5 else [])))      # a threshold may be the data maximum / minimum
     inp = gen.make_input(rng, "cat.txt", "text", gen.pick_times(rng, 4), [0, 12, 24], gen.LOC_POOL[:3])
